@@ -1039,7 +1039,7 @@ int32_t pstm_sub_s(const pstm_int *a, const pstm_int *b, pstm_int *c)
     {
         t = ((pstm_word) a->dp[x]) - t;
         c->dp[x] = (pstm_digit) t;
-        t = (t >> DIGIT_BIT);
+        t = (t >> DIGIT_BIT) & 1;
     }
     for (; x < oldused; x++)
     PS_VERIF_LOOP(__CPROVER_assigns(x, __CPROVER_object_whole(c->dp))
